@@ -508,6 +508,8 @@ impl<Writer: Write> Mp4Writer<Writer> {
             return Err(Mp4WriterError::AlreadyFinalized);
         }
         // DTS must be monotonically increasing (decode order)
+        let mut prev_delta: Option<u32> = None;
+        let mut first_config: Option<VideoConfig> = None;
         if let Some(prev) = self.video_prev_pts {
             if dts <= prev {
                 return Err(Mp4WriterError::NonIncreasingTimestamp);
@@ -516,11 +518,7 @@ impl<Writer: Write> Mp4Writer<Writer> {
             if delta > u64::from(u32::MAX) {
                 return Err(Mp4WriterError::DurationOverflow);
             }
-            let delta = delta as u32;
-            if let Some(last) = self.video_samples.last_mut() {
-                last.duration = Some(delta);
-            }
-            self.video_last_delta = Some(delta);
+            prev_delta = Some(delta as u32);
         } else {
             if !is_keyframe {
                 return Err(Mp4WriterError::FirstFrameMustBeKeyframe);
@@ -539,7 +537,7 @@ impl<Writer: Write> Mp4Writer<Writer> {
                     _ => Mp4WriterError::FirstFrameMissingSpsPps,
                 });
             }
-            self.video_config = config;
+            first_config = config;
         }
 
         // Convert Annex B to length-prefixed format based on codec
@@ -552,6 +550,17 @@ impl<Writer: Write> Mp4Writer<Writer> {
         };
         if converted.len() > u32::MAX as usize {
             return Err(Mp4WriterError::DurationOverflow);
+        }
+
+        // The frame is accepted: only now touch the writer state.
+        if let Some(delta) = prev_delta {
+            if let Some(last) = self.video_samples.last_mut() {
+                last.duration = Some(delta);
+            }
+            self.video_last_delta = Some(delta);
+        }
+        if first_config.is_some() {
+            self.video_config = first_config;
         }
 
         self.video_samples.push(SampleInfo {
@@ -574,6 +583,7 @@ impl<Writer: Write> Mp4Writer<Writer> {
             .as_ref()
             .ok_or(Mp4WriterError::AudioNotEnabled)?;
 
+        let mut prev_delta: Option<u32> = None;
         if let Some(prev) = self.audio_prev_pts {
             if pts < prev {
                 return Err(Mp4WriterError::NonIncreasingTimestamp);
@@ -582,11 +592,7 @@ impl<Writer: Write> Mp4Writer<Writer> {
             if delta > u64::from(u32::MAX) {
                 return Err(Mp4WriterError::DurationOverflow);
             }
-            let delta = delta as u32;
-            if let Some(last) = self.audio_samples.last_mut() {
-                last.duration = Some(delta);
-            }
-            self.audio_last_delta = Some(delta);
+            prev_delta = Some(delta as u32);
         }
 
         // Process audio data based on codec
@@ -626,6 +632,14 @@ impl<Writer: Write> Mp4Writer<Writer> {
 
         if sample_data.len() > u32::MAX as usize {
             return Err(Mp4WriterError::DurationOverflow);
+        }
+
+        // The frame is accepted: only now patch the previous sample's duration.
+        if let Some(delta) = prev_delta {
+            if let Some(last) = self.audio_samples.last_mut() {
+                last.duration = Some(delta);
+            }
+            self.audio_last_delta = Some(delta);
         }
 
         self.audio_samples.push(SampleInfo {
